@@ -6,5 +6,5 @@ echo "--- baseline"
 (cd $WT/src && GOFLAGS=-mod=mod GOPROXY=off GOSUMDB=off GOTOOLCHAIN=local go test -vet=off -count=1 ./pkg/libs/bytesize ./pkg/libs/io/backlog ./pkg/libs/io/pipe ./pkg/libs/stats ./pkg/rdb ./pkg/redis 2>&1 | grep -v "^ok" | tail -5)
 for c in $P "$@"; do
   echo "--- check $c"
-  (cd /verif && VF_REPO_SRC=$WT/src VF_EVIDENCE_DIR=/tmp/vf-ev timeout 1500 ./bin/vcheck check $c 2>&1 | grep -E "^VIOLATION|^KNOWN|^INCONCLUSIVE|=> exit" | cut -c1-240 | sort | uniq -c | head -8)
+  (cd /verif && VF_REPO_SRC=$WT/src VF_EVIDENCE_DIR=/tmp/vf-ev timeout --foreground 1500 ./bin/vcheck check $c 2>&1 | grep -E "^VIOLATION|^KNOWN|^INCONCLUSIVE|=> exit" | cut -c1-240 | sort | uniq -c | head -8)
 done
